@@ -5,6 +5,7 @@ use crate::gen::io::{ReaderKind, SharedSink};
 use crate::gen::l2gen::{gen_chunks, random_props_l2, L2Params};
 use crate::gen::prog::{structured_data, ProgGen, ProgParams};
 use crate::liblzma as ll;
+use crate::refmodel::lzma::Props;
 use crate::refmodel::lzma2::{self, Chunk, Written};
 use crate::refmodel::program::{Interp, Sym};
 use crate::refmodel::xz::{self, BlockOpts, BlockSpec, XzSpec};
@@ -235,7 +236,7 @@ fn fam_tiny(ctx: &CaseCtx, cov: &mut Cov) -> CaseOut {
     let mut rng = ctx.rng();
     let i = ctx.index as usize;
     let b = (i as u8).wrapping_mul(41);
-    let props = crate::refmodel::lzma::Props::new((i % 5) as u32, ((i / 5) % 5).min(4 - (i % 5).min(4)) as u32, ((i / 25) % 5) as u32);
+    let props = Props::new((i % 5) as u32, ((i / 5) % 5).min(4 - (i % 5).min(4)) as u32, ((i / 25) % 5) as u32);
     let raw1 = Chunk::Raw { reset_dict: true, data: vec![b] };
     let lz = |prog: Vec<Sym>| Chunk::Lzma { reset: 3, props, prog };
     let chunks: Vec<Chunk> = match i % 7 {
@@ -394,28 +395,8 @@ fn fam_sizes(ctx: &CaseCtx, cov: &mut Cov) -> CaseOut {
         5 => {
             // compressed chunks whose unpacked size sits on the 16-bit boundary of the size
             // field (the high bits live in the control byte), after another chunk
-            let first: Vec<Sym> = (0..rng.range(1, 40)).map(|_| Sym::Lit(rng.byte())).collect();
-            let base = first.len();
-            chunks.push(Chunk::Lzma { reset: 3, props, prog: first });
-            let target = *rng.pick(&[65535usize, 65536, 65537, 0x1FFFF, 0x20000, 0x20001, 0x10001]);
-            let reset = *rng.pick(&[0u8, 0, 1, 2, 3]);
-            // a dictionary reset forgets the first chunk: copies may only reach into this one
-            let base = if reset == 3 { 0 } else { base };
-            let mut prog: Vec<Sym> = Vec::new();
-            let mut produced = 0usize;
-            while produced < target {
-                let len = (target - produced).min(273);
-                if len < 2 || base + produced == 0 {
-                    prog.push(Sym::Lit(rng.byte()));
-                    produced += 1;
-                } else {
-                    let dist = crate::gen::prog::pick_dist(&mut rng, (base + produced) as u64, u64::MAX) as u32;
-                    prog.push(Sym::Match { dist, len: len as u32 });
-                    produced += len;
-                }
-            }
-            chunks.push(Chunk::Lzma { reset, props, prog });
-            chunks.push(Chunk::Lzma { reset: 0, props, prog: vec![Sym::Rep { idx: 0, len: 3 }, Sym::Lit(rng.byte())] });
+            let target = *rng.pick(&SIZE_FIELD_BOUNDARIES);
+            chunks = sized_chunk_stream(&mut rng, props, target);
             cov.name(&format!("chunk_with_unpacked_size_{:#x}", target), 1);
         }
         4 => {
@@ -473,6 +454,39 @@ fn fam_sizes(ctx: &CaseCtx, cov: &mut Cov) -> CaseOut {
     }
     run_chunks("sizes", &chunks, &mut out, cov, ctx, &mut rng);
     out
+}
+
+/// unpacked sizes of a compressed chunk on and next to the boundaries of its size field: the low
+/// 16 bits live in two bytes, the high 5 bits in the control byte, and the field stores size - 1
+pub const SIZE_FIELD_BOUNDARIES: [usize; 14] =
+    [65535, 65536, 65537, 0x1FFFF, 0x20000, 0x20001, 0x2FFFF, 0x30000, 0x40000, 0x80000, 0x100000, 0x1F0000, 0x1FFFFF, 0x200000];
+
+/// a short LZMA chunk, then an LZMA chunk that unpacks to exactly `target` bytes (any reset
+/// class), then a two-symbol chunk that continues from it
+pub fn sized_chunk_stream(rng: &mut Rng, props: Props, target: usize) -> Vec<Chunk> {
+    let mut chunks = Vec::new();
+    let first: Vec<Sym> = (0..rng.range(1, 40)).map(|_| Sym::Lit(rng.byte())).collect();
+    let base = first.len();
+    chunks.push(Chunk::Lzma { reset: 3, props, prog: first });
+    let reset = *rng.pick(&[0u8, 0, 1, 2, 3]);
+    // a dictionary reset forgets the first chunk: copies may only reach into this one
+    let base = if reset == 3 { 0 } else { base };
+    let mut prog: Vec<Sym> = Vec::new();
+    let mut produced = 0usize;
+    while produced < target {
+        let len = (target - produced).min(273);
+        if len < 2 || base + produced == 0 {
+            prog.push(Sym::Lit(rng.byte()));
+            produced += 1;
+        } else {
+            let dist = crate::gen::prog::pick_dist(rng, (base + produced) as u64, u64::MAX) as u32;
+            prog.push(Sym::Match { dist, len: len as u32 });
+            produced += len;
+        }
+    }
+    chunks.push(Chunk::Lzma { reset, props, prog });
+    chunks.push(Chunk::Lzma { reset: 0, props, prog: vec![Sym::Rep { idx: 0, len: 3 }, Sym::Lit(rng.byte())] });
+    chunks
 }
 
 /// multi-chunk streams written by liblzma (LZMA_SYNC_FLUSH starts a new chunk)
